@@ -230,7 +230,9 @@ def altCollectOk (c : Coll) (s : Search) (fe : Option Err) (readable : List Obj)
     let n := io.length
     io.all (fun o => readable.contains o) && (io.map (·.uuid)).eraseDups.length == n &&
     io.map (capturedKey c s) == (keys.take n).map some &&
-    ((r == "E:" ++ e.print && pmin ≤ n + 1 && n + 1 ≤ pmax && n ≤ s.limit) ||
+    -- (`Search.Assign` assigns nothing when the search fails: an empty list with the error stands
+    --  for any number of objects gathered before it)
+    ((r == "E:" ++ e.print && ((pmin ≤ n + 1 && n + 1 ≤ pmax && n ≤ s.limit) || (n == 0 && pmin ≤ s.limit + 1))) ||
      (r == "ok" && n == s.limit && pmax > s.limit + 1))
   | _, _ => false
 
